@@ -228,8 +228,18 @@ func propC19(p *Prog, r *Report) {
 		r.Undecided("C19.a", "anchors", "", "marshalFile/unmarshalFile not found in internal/repository/file")
 		return
 	}
-	wt := c19WriterTable(p, r, mar)
-	rt := c19ReaderTable(p, r, unm)
+	// the codec is interpreted abstractly (codec.go); where it uses something outside that vocabulary the
+	// syntactic extraction below decides
+	wt, wok, wwhy := codecTable(p, mar, "writer")
+	if !wok || len(wt) == 0 {
+		wt = c19WriterTable(p, r, mar)
+		r.Note("writer layout by syntactic extraction (%s)", wwhy)
+	}
+	rt, rok, rwhy := codecTable(p, unm, "reader")
+	if !rok || len(rt) == 0 {
+		rt = c19ReaderTable(p, r, unm)
+		r.Note("reader layout by syntactic extraction (%s)", rwhy)
+	}
 	r.Tables["writer_layout"] = wt
 	r.Tables["reader_layout"] = rt
 	r.Tables["golden_layout"] = goldenLayout
@@ -571,21 +581,24 @@ func c19FileLen(p *Prog, r *Report) {
 	// data := make([]byte, fileLen(f)); marshalFile(f, data)
 	good := false
 	var pos ast.Node = set.Decl
-	ast.Inspect(set.Decl.Body, func(x ast.Node) bool {
-		c, ok := x.(*ast.CallExpr)
-		if !ok {
-			return true
-		}
-		if id, ok := c.Fun.(*ast.Ident); ok && id.Name == "make" && len(c.Args) == 2 {
-			if _, isB := info.Uses[id].(*types.Builtin); isB {
-				pos = c
-				if inner, ok := ast.Unparen(c.Args[1]).(*ast.CallExpr); ok && p.callIs(set.Pkg, inner, kFileLen) {
-					good = true
+	// (in Set itself or in a helper of the repository that allocates and fills the record: encodeFile)
+	for _, body := range p.deepBodies(set) {
+		ast.Inspect(body, func(x ast.Node) bool {
+			c, ok := x.(*ast.CallExpr)
+			if !ok {
+				return true
+			}
+			if id, ok := c.Fun.(*ast.Ident); ok && id.Name == "make" && len(c.Args) == 2 {
+				if _, isB := info.Uses[id].(*types.Builtin); isB {
+					pos = c
+					if inner, ok := ast.Unparen(c.Args[1]).(*ast.CallExpr); ok && p.callIs(set.Pkg, inner, kFileLen) {
+						good = true
+					}
 				}
 			}
-		}
-		return true
-	})
+			return true
+		})
+	}
 	r.Check(good, "C19.a", kFileSet+"#alloc", p.pos(pos), "buffer allocated with make([]byte, fileLen(f))", "the record buffer is not allocated with exactly fileLen(f) bytes")
 }
 
@@ -660,6 +673,37 @@ func c19Guards(p *Prog, r *Report, mar, unm *FuncInfo) {
 			}
 			return true
 		})
+	}
+	if len(sites) < 2 {
+		// the reads go through a cursor or helpers (rec.next(n)): the abstract run of the decoder says which
+		// statement of unmarshalFile needs how many bytes
+		if ci, ok, _ := codecRun(p, unm, "reader"); ok {
+			for _, a := range ci.accesses {
+				node := -1
+				if es, isExpr := a.Stmt.(*ast.ExprStmt); isExpr {
+					node = f.NodeContaining(es.X)
+				} else {
+					for _, n := range f.Nodes {
+						if n.Ast == ast.Node(a.Stmt) {
+							node = n.ID
+						}
+					}
+					if node < 0 {
+						ast.Inspect(a.Stmt, func(x ast.Node) bool {
+							if node < 0 && x != nil {
+								if id := f.NodeContaining(x); id >= 0 {
+									node = id
+								}
+							}
+							return node < 0
+						})
+					}
+				}
+				if node >= 0 {
+					sites = append(sites, site{node, a.Need, a.Pos, a.What})
+				}
+			}
+		}
 	}
 	r.Floor("C19.b", "unmarshal-slice-sites", len(sites), 2)
 	sentinel := "internal/model.ErrInvalidFileFormat"
@@ -918,7 +962,8 @@ func c19GetAll(p *Prog, r *Report) {
 	if ga == nil {
 		return
 	}
-	f := p.FlatOf(ga)
+	// (the decoding loop may sit in a helper of the repository: decodeFiles(items))
+	f := p.FlatInlExcept(ga, kUnmarshal)
 	sites := f.CallSites(kUnmarshal)
 	sites = append(sites, f.CallSites("(*internal/db/badger.Manager).GetAll", "(internal/db/badger.QueryManager).GetAll")...)
 	r.Floor("C19.d", "GetAll-error-sources", len(sites), 2)
